@@ -607,10 +607,10 @@ Section Builder.
           if negb (edges_ok st ws) then inl RTypeErr
           else if fan_in ws then inl RMerge
           else if memN kEND (targets ws) then
-            match value_for kEND ws with
-            | DNil => inl ROther                 (* result == nil: "no tasks to execute" in the next step *)
-            | d => if assert_type_v0 u d (g_out st) then inl (ROk d) else inl RPanicEsc   (* out.(O) *)
-            end
+            (* END reached (reported separately from the value since ff3e750: nil is a legal result of
+               an interface-typed graph); toGenericRunnable: assertType[O], else the plain out.(O) panics *)
+            let d := value_for kEND ws in
+            if assert_type u d (g_out st) then inl (ROk d) else inl RPanicEsc
           else inr (map (fun t => (t, value_for t ws)) (targets ws))
       end.
 
